@@ -127,6 +127,33 @@ def check_prefix_input(out, facts):
            'PrefixInput overrides %s (audited: remaining_len, read)' % sorted(ms), '-')
 
 
+def _exact_byte_need(x, f):
+    """x == count * size_of::<T>() (checked / saturating / plain) in a function whose T is plain data (ToMutByteSlice:
+    the encoding of such a T is its memory representation, so that many bytes are needed exactly)"""
+    x = strip(x)
+    for _ in range(8):
+        if not (isinstance(x, tuple) and x):
+            break
+        if x[0] == 'mutvar':
+            x = strip(x[3])
+        elif x[0] in ('unwrapped', 'tried'):
+            x = strip(x[1])
+        elif x[0] == 'call' and x[1] in ('unwrap', 'unwrap_or', 'expect', 'branch', 'ok_or', 'ok_or_else') and x[3]:
+            x = strip(x[3][0])
+        else:
+            break
+    ops = None
+    if isinstance(x, tuple) and x and x[0] == 'call' and x[1] in ('checked_mul', 'saturating_mul') and len(x[3]) == 2:
+        ops = [strip(a) for a in x[3]]
+    elif isinstance(x, tuple) and x and x[0] == 'bin' and x[1] == 'Mul':
+        ops = [strip(x[2]), strip(x[3])]
+    if not ops:
+        return False
+    plain = any(p.endswith('ToMutByteSlice') for p in f.get('preds', []))
+    has_size = any(isinstance(o, tuple) and o and o[0] == 'call' and o[1] == 'size_of' for o in ops)
+    return plain and has_size
+
+
 def check_remaining_len_taint(out, facts):
     """R08.3"""
     users = []
@@ -176,6 +203,16 @@ def check_remaining_len_taint(out, facts):
                 dep = tainted(cond) or any(isinstance(d, tuple) and tainted(d) for d, _ in term[2])
                 if dep and not pure_reject(term):
                     bad.append('a branch depending on remaining_len() does more than reject: ' + sym.tstr(term)[:160])
+                elif dep and isinstance(cond, tuple) and cond[0] == 'if':
+                    # the rejection must be sound: the bytes present are compared with the exact number of bytes the
+                    # decoder is going to read (count * size_of::<T>() for plain-data T), never with an element count
+                    # or any other quantity that an encoding can undercut (elements may encode to zero bytes)
+                    c = strip(cond[1])
+                    if isinstance(c, tuple) and c[0] == 'bin' and c[1] in ('Lt', 'Gt', 'Le', 'Ge'):
+                        other = c[3] if tainted(c[2]) else c[2]
+                        if not _exact_byte_need(other, f):
+                            bad.append('input is rejected when remaining_len() is below %s, which is not the exact byte length about to be read '
+                                       '(count * size_of::<T>() with T: ToMutByteSlice): valid encodings can be shorter' % sym.vstr(other)[:80])
                 for _, x in term[2]:
                     visit(x)
             elif k == 'cat':
@@ -294,6 +331,27 @@ def check_bytes_cursor(out, facts):
         if len(cp) != 1 or 'Range::Range{0: self.position, 1: (self.position Add len(into))}' not in sym.vstr(cp[0][3][1]):
             ok = False
             why.append('copied range is not [position, position + into.len())')
+    # acceptance, decided by evaluating the branch conditions at boundary values (any spelling of the guard is fine): a
+    # read of n bytes with position p in a buffer of L bytes (p <= L) fails iff n > L - p -- in particular an empty read
+    # at the very end succeeds, and nothing else is ever rejected
+    for n, L, pos in ((0, 0, 0), (0, 5, 5), (1, 5, 5), (1, 5, 4), (2, 5, 4), (5, 5, 0), (6, 5, 0), (0, 5, 0), (3, 7, 2), (6, 7, 2)):
+        def leaf(x, n=n, L=L, pos=pos):
+            sx = sym.vstr(x)
+            if sx == 'len(into)':
+                return n
+            if sx == 'len(self.bytes)':
+                return L
+            if sx == 'self.position':
+                return pos
+            return None
+        evs, st = trace(t, leaf)
+        want = 'ERR' if n > L - pos else 'OK'
+        got = 'ERR' if st == 'ERR' else ('OK' if st in ('OK', 'RET') else st)
+        if got != want:
+            ok = False
+            why.append('a read of %d byte(s) at position %d of %d %s (evaluation of the guards gives %s)' % (
+                n, pos, L, 'must fail' if want == 'ERR' else 'must succeed', got))
+            break
     out.ob('R08.4', 'BytesCursor::read [%s]' % cfg, ok and not sym.has_opaque(t), '; '.join(sorted(set(why))), f['loc'], sample={'term': sym.tstr(t)})
     # zero-copy override: Compact<u32> count, reject if count > remaining, hook with the count, split exactly count
     f = facts.impl_method('Input', 'codec::BytesCursor', 'scale_internal_decode_bytes')
@@ -355,5 +413,9 @@ def run(cx, out):
         n_in = len(facts.impls_of('Input'))
         want = {'A': 6, 'B': 5, 'C': 5, 'D': 7, 'E': 6}.get(cfg, 5)
         out.floor('R08.4', 'Input impls [%s]' % cfg, n_in, want)
+    # premises: a wrapper stack with non-binding limits is transparent only if depth bookkeeping is balanced (C11 R11.1:
+    # an unmatched ascend underflows the depth counter under the wrapper and is invisible without it)
+    from . import shared
+    shared.premises(cx, out, {'c11': {'R11.1'}})
     from . import positive
     positive.check(cx, out, 'C08')
